@@ -348,8 +348,12 @@ def demand_value(H, year, r, qname, depth=0):
 
 def tol_of(summ, y, c):
     """a stored line is the instruction's amount rounded to the line's places: half a unit of the last place (a cent for 2 places, as before)"""
-    t = summ[y]['forms'][c['form']]['lines'][c['line']]['type']
-    places = int(t.split(':')[1]) if t.startswith('float') and ':' in t else 2
+    if y in summ:
+        t = summ[y]['forms'][c['form']]['lines'][c['line']]['type']
+        places = int(t.split(':')[1]) if t.startswith('float') and ':' in t else 2
+    else:       # an untranslated year: the places of the real field object
+        fld = [f for f in c['obj'].fields() if f.base_name() == c['line']] if c.get('obj') is not None else []
+        places = getattr(fld[0], '_places', 2) if fld else 2
     return (Fraction(1, 100) if places >= 2 else Fraction(1, 2 * 10 ** places)) + Fraction(1, 10 ** 6)
 
 
@@ -554,7 +558,14 @@ def run(tier, seed):
         r = scenarios.run_scenario(H, year, forms, sseed, prof)
         if r['exc'] is None:
             results.append((year, r))
-    # every parsed instruction (whatever the shape of the body) against the values of REAL solved returns
+    # every parsed instruction (whatever the shape of the body) against the values of REAL solved returns - also for a year whose
+    # forms the fail-closed translator refused (no lemma can be stated there, but the templates and the real code are still compared)
+    for y_ in common.YEARS:
+        if y_ not in per_year:
+            try:
+                per_year[y_], _st = candidates(H, y_, overrides)
+            except Exception:  # noqa
+                per_year[y_] = []
     n_cmp = 0
     for (year, r) in results:
         if not r['ok'] or year not in per_year:
